@@ -8,7 +8,7 @@ from typing import Any
 import numpy as np
 
 from vf import gen_dc
-from vf.core import Ctx, Violation, require
+from vf.core import Ctx, Violation, canon, require
 from vf.stateful import make_machine, replay_history
 
 META = {
@@ -18,7 +18,7 @@ META = {
             "the 4 bundled training states, training_steps 10..40, "
             "training_time 0.5..5) x every bundled controller blueprint of "
             "its dimension x {FigureOfMerit, FigureOfMeritLE} x "
-            "supports_model_mode, then up to 12 (quick) / 25 (thorough) "
+            "supports_model_mode, then up to 12 (quick, 60 histories) / 25 (thorough) "
             "operations drawn from evaluate(x) with x from [-32,32]^n "
             "(uniform, near zero, small, corners, unit vectors, integers), "
             "evaluate(a previously used x), initialize(), set_model(m) with "
@@ -72,6 +72,13 @@ META = {
 
 
 WORK_LIMIT = 30_000  # controller invocations per evaluate(x)
+
+#: memo of deterministic reference computations (expected value, per-case J,
+#: diff blocks, value of a fresh objective), keyed by the canonical JSON of
+#: (set-up, surrogate model or None, x). Pure function results only: it makes
+#: repeated x and the replays of Hypothesis' shrinker cheap and carries no
+#: information from one case to another.
+_MEMO: dict[str, Any] = {}
 
 
 def _combine(cls: str, js: list[float]) -> float:
@@ -222,13 +229,23 @@ class ObjectiveHistory:
         # 1. reference simulation under the work budget: an x that needs more
         #    is outside the generated domain (skipped, counted, the object
         #    under test never sees it)
-        self._budget(WORK_LIMIT)
-        try:
-            want, js, blocks = self._reference(x, equations)
-        except gen_dc.WorkLimit:
+        key = canon([self.init, self.model_spec if self.mode == "model"
+                     else None, op["x"]])
+        memo = _MEMO.get(key)
+        if memo is None:
+            self._budget(WORK_LIMIT)
+            try:
+                memo = [*self._reference(x, equations), None]
+            except gen_dc.WorkLimit:
+                memo = "skip"
+            if len(_MEMO) > 4000:
+                _MEMO.clear()
+            _MEMO[key] = memo
+        if memo == "skip":
             self.skipped += 1
             self.ctx.rec.label("evaluate_skipped_work_limit")
             return
+        want, js, blocks = memo[0], memo[1], memo[2]
         # 2. the object under test, then a fresh object
         self._budget(4 * WORK_LIMIT)
         got = self._sut("evaluate(x)", self.f.evaluate, x)
@@ -237,8 +254,10 @@ class ObjectiveHistory:
         require(got == 1e200 or 0.0 <= got <= 1e100,
                 f"evaluate returned {got!r}: neither in [0, 1e100] nor the "
                 "failure value 1e200")
-        self._budget(4 * WORK_LIMIT)
-        fresh = self._fresh_value(x)
+        if memo[3] is None:
+            self._budget(4 * WORK_LIMIT)
+            memo[3] = self._fresh_value(x)
+        fresh = memo[3]
         require(got == fresh, lambda: (
             f"{self.mode}-mode evaluate returned {got!r} but a freshly "
             f"constructed objective returns {fresh!r} for the same x (step "
@@ -344,5 +363,5 @@ def run(ctx: Ctx) -> None:
     catalog = gen_dc.controller_catalog()
     machine = make_machine(ObjectiveHistory, gen_dc.objective_inits(catalog),
                            gen_dc.objective_ops)
-    ctx.state_machine("history", machine, quick=40, thorough=16 * 150,
+    ctx.state_machine("history", machine, quick=60, thorough=16 * 400,
                       steps=ctx.pick(12, 25))
